@@ -26,7 +26,7 @@ KEYWORDS = ["as", "break", "const", "continue", "crate", "else", "enum", "extern
 STYLES = ["camelCase", "snake_case", "PascalCase", "SCREAMING_CASE", "_lead", "x1", "_1", "a_1b", "_", "__double", "trailing_",
           "mixed_Snake_Case", "ALLCAPS", "a"]
 CONTROLS = ["name", "value", "fora", "types", "selfish", "Selfie", "asyncx", "tryit", "boxed", "matcher"]
-POSITIONS = ["response_field", "alias", "variable", "input_field", "oneof_member", "enum_value"]
+POSITIONS = ["response_field", "alias", "variable", "input_field", "oneof_member", "enum_value", "id_field", "optional_id_alias"]
 
 
 def snake_ident_ok(name):
@@ -45,6 +45,13 @@ def build(name, position):
         sel = [Field(name)]
     elif position == "alias":
         sel = [Field("x", alias=name)]
+    elif position == "id_field":
+        # ID fields get an extra serde attribute (the int-or-string helper): the rename must survive next to it
+        qfields.append(FieldDef(name, "ID!"))
+        sel = [Field(name)]
+    elif position == "optional_id_alias":
+        qfields.append(FieldDef("ident", "ID"))
+        sel = [Field("ident", alias=name)]
     elif position == "variable":
         vars_ = [(name, "Int", None)]
     elif position == "input_field":
@@ -74,10 +81,10 @@ def run(tier):
                 variants.append((f, "keyword_variant"))
     mods = []
     for name, klass in names + variants:
-        for pos in (POSITIONS if klass != "keyword_variant" else (["variable", "input_field", "response_field"] if tier == "quick" else POSITIONS)):
+        for pos in (POSITIONS if klass != "keyword_variant" else (["variable", "input_field", "response_field", "id_field"] if tier == "quick" else POSITIONS)):
             if pos == "enum_value" and name in ("true", "false", "null"):
                 continue  # not GraphQL enum values
-            if name.startswith("__") and pos in ("response_field", "input_field", "oneof_member", "enum_value"):
+            if name.startswith("__") and pos in ("response_field", "input_field", "oneof_member", "enum_value", "id_field"):
                 continue  # `__` names are reserved for introspection in schemas
             schema, doc = build(name, pos)
             mods.append({"name": name, "class": klass, "pos": pos, "schema": schema, "doc": doc})
@@ -110,6 +117,8 @@ def run(tier):
         n = m["name"]
         if m["pos"] in ("response_field", "alias"):
             reqs.append({"case": m["case"], "module": "op", "what": "resp", "arg": {n: 7}})
+        elif m["pos"] in ("id_field", "optional_id_alias"):
+            reqs.append({"case": m["case"], "module": "op", "what": "resp", "arg": {n: "k7"}})
         elif m["pos"] == "variable":
             reqs.append({"case": m["case"], "module": "op", "what": "vars", "arg": {n: 7}})
         elif m["pos"] == "input_field":
@@ -130,6 +139,8 @@ def run(tier):
         out = json.loads(r["out"])
         if m["pos"] in ("response_field", "alias"):
             good = out == {n: 7}
+        elif m["pos"] in ("id_field", "optional_id_alias"):
+            good = out == {n: "k7"}
         elif m["pos"] == "variable":
             good = out.get("variables") == {n: 7}
         elif m["pos"] == "input_field":
@@ -144,7 +155,7 @@ def run(tier):
     cov = {
         "evaluations": len(mods) + len(reqs), "distinct_nontrivial": sum(1 for m in mods if m["class"] != "control"),
         "rule": "one generated module per (name, position): %d keywords (strict, reserved and weak, editions 2015-2024), %d case "
-                "styles, %d non-keyword controls x 6 positions (minus combinations GraphQL itself forbids), plus every keyword in "
+                "styles, %d non-keyword controls x 8 positions (response field, alias, variable, input field, @oneOf member, enum value, ID-typed field, alias of an optional ID; minus combinations GraphQL itself forbids), plus every keyword in "
                 "other case styles (Capitalised, _leading; thorough also UPPER and trailing_) at the positions that snake_case it; every module is "
                 "compiled and one value is sent through the named position; non-trivial = keyword or style names" %
                 (len(KEYWORDS), len(STYLES), len(CONTROLS)),
